@@ -13,7 +13,7 @@ additions that make it independent of how the fragment is factored:
   (used for helpers a refactoring extracted, so that a rule sees through `x = helper(...)` without pinning the helper).
 * generator functions (round 4): a FunctionDef with `yield` / `yield from` becomes a callable returning a `GenObj`, a *lazy*
   one-shot iterator - the body is interpreted up to the next `yield` each time the consumer asks for an element (a
-  comprehension, a `for` statement, `next()`), so that the interleaving of producer and consumer (a buffer that is yielded
+  comprehension, a `for` statement - sa/blockeval.py iterates with the language's own protocol -, `next()`), so that the interleaving of producer and consumer (a buffer that is yielded
   and then cleared, a residue built as soon as its run is complete) is the one Python has.
 """
 from __future__ import annotations
@@ -272,22 +272,6 @@ class BlockEval2(BlockEval):
             else:
                 for v in self.fold(st.value.value):
                     self.yield_fn(v)
-            return
-        if isinstance(st, ast.For):
-            it = self.fold(st.iter)
-            # a generator is consumed lazily (the body runs between two steps of the producer); anything else as in the base class
-            for item in it if isinstance(it, GenObj) else list(it):
-                self._assign(st.target, item)
-                try:
-                    self._block(st.body)
-                except _Stop as s:
-                    if s.kind == "continue":
-                        continue
-                    if s.kind == "break":
-                        break
-                    raise
-            else:
-                self._block(st.orelse)
             return
         if isinstance(st, ast.Expr) and isinstance(st.value, ast.Call):
             c = st.value
